@@ -451,16 +451,19 @@ func emitAllOps(r *hx.Run, rng *gen.Rng, base tcase, lastW, lastH int) error {
 	r.Count("op:fill")
 	for _, c := range []int{-1, 0, lastW - 1, lastW} {
 		for _, rw := range []int{-1, 0, lastH - 1, lastH} {
-			tc := base
-			if rng.Bool() {
-				tc.kind, tc.args = "setcell", []int{c, rw, int(gid("世")), 2, 8}
-			} else {
-				tc.kind, tc.args = "setstyle", []int{c, rw, 8}
+			// both primitives at every probe: they have separate code paths
+			for _, kind := range []string{"setcell", "setstyle"} {
+				tc := base
+				if kind == "setcell" {
+					tc.kind, tc.args = kind, []int{c, rw, int(gid("世")), 2, 8}
+				} else {
+					tc.kind, tc.args = kind, []int{c, rw, 8}
+				}
+				if err := runCase(r, &tc); err != nil {
+					return err
+				}
+				r.Count("op:" + tc.kind)
 			}
-			if err := runCase(r, &tc); err != nil {
-				return err
-			}
-			r.Count("op:" + tc.kind)
 		}
 	}
 	return nil
@@ -573,6 +576,73 @@ func run(r *hx.Run) error {
 	}
 	r.Note("exhaustive", false)
 	r.Note("geometry", "depth<=2 exhaustive per axis (offset,size in [-3,parent+3]); random depth<=4")
+
+	// 1c. windows that are NOT inside all their ancestors, and roots that are not the full screen:
+	// every primitive at every offset of the leaf (and one beyond on each side), every draw op with
+	// text that overflows the leaf.
+	long := []seg{{tag: 4, text: "abcdefghij世界klmnop\nqrs\ttuv wx yz 0123456789"}}
+	for _, fam := range []struct {
+		sw, sh int
+		chain  []step
+	}{
+		// child with a negative offset inside a parent that is not at the screen origin
+		{6, 4, []step{{'R', 0, 0, 6, 4}, {'N', 3, 2, 2, 2}, {'N', -2, -1, 4, 3}}},
+		{6, 4, []step{{'R', 0, 0, 6, 4}, {'N', 2, 1, 2, 2}, {'D', -1, -1, 5, 4}}},
+		{6, 4, []step{{'R', 0, 0, 6, 4}, {'D', 2, 1, 3, 2}, {'D', -2, -1, 9, 9}}},
+		{5, 3, []step{{'R', 0, 0, 5, 3}, {'N', 1, 1, 3, 1}, {'N', 0, 0, 2, 1}, {'D', -1, -1, 6, 4}}},
+		// struct-literal roots: non-zero origin, smaller than the screen
+		{6, 4, []step{{'R', 2, 1, 3, 2}}},
+		{6, 4, []step{{'R', 1, 1, 4, 2}}},
+		{4, 3, []step{{'R', 1, 1, 2, 1}}},
+		{6, 4, []step{{'R', 0, 0, 3, 2}}}, // a vx.Window() kept from before the screen grew
+		{6, 4, []step{{'R', 2, 1, 3, 2}, {'N', 1, 0, 5, 5}}},
+		{6, 4, []step{{'R', 1, 0, 2, 2}, {'D', -1, 0, 6, 4}}},
+	} {
+		leaf := fam.chain[len(fam.chain)-1]
+		for _, caps := range [][2]bool{{true, true}, {false, false}} {
+			base := tcase{uc: caps[0], ew: caps[1], sw: fam.sw, sh: fam.sh, chain: fam.chain}
+			for c := -1; c <= leaf.w+1; c++ {
+				for rw := -1; rw <= leaf.h+1; rw++ {
+					for _, kind := range []string{"setcell", "setstyle"} {
+						tc := base
+						if kind == "setcell" {
+							tc.kind, tc.args = kind, []int{c, rw, int(gid("y")), 1, 9}
+						} else {
+							tc.kind, tc.args = kind, []int{c, rw, 9}
+						}
+						if err := runCase(r, &tc); err != nil {
+							return err
+						}
+						r.Count("escape-family:" + kind)
+					}
+				}
+			}
+			for _, k := range []string{"fill", "clear", "print", "wrap", "println", "trunc"} {
+				rows := []int{0}
+				if k == "println" || k == "trunc" {
+					rows = []int{-1, 0, leaf.h - 1, leaf.h, leaf.h + 1}
+				}
+				for _, row := range rows {
+					tc := base
+					tc.kind = k
+					switch k {
+					case "fill":
+						tc.args = []int{int(gid("x")), 1, 7}
+					case "clear":
+					case "println", "trunc":
+						tc.args = []int{row}
+						tc.segs = long
+					default:
+						tc.segs = long
+					}
+					if err := runCase(r, &tc); err != nil {
+						return err
+					}
+					r.Count("escape-family:" + k)
+				}
+			}
+		}
+	}
 
 	// 2. random trees, every op
 	nRand := 1500
